@@ -246,3 +246,18 @@ def r5(rep, prog):
         rep.check(L == A, "C20-R5", ar.def_, "references-cover-layout", "%s: the layout names the lexical ids of %s but add_references adds %s — a type in the uncovered position never enters the hashed reference set" % (imp["self"], sorted(L), sorted(A)),
                   line=ar.span, detail={"layout": sorted(L), "references": sorted(A)})
     rep.floor("C20-R5", "hand-written Introspectable impls with type arguments", n, 20)
+
+    # ---- R7 the id is a function of the description and of nothing else (added after seeded change C20e) ---------------
+    # A process-wide cache / any shared mutable state in the computation makes the id depend on what was computed before.
+    # Who-may-call rule: no function of introspection::type_id reaches std::sync / std::cell / thread-local / once-cell
+    # primitives, and none of its locals has such a type.
+    STATEFUL = re.compile(r"std::sync::|core::cell::|std::cell::|std::thread::local|LocalKey|once_cell|OnceLock|LazyLock|OnceCell|RefCell|Mutex|RwLock|Atomic")
+    n7 = 0
+    for d, b in sorted(prog.bodies.items()):
+        if "::test" in d or "aldrin_core::introspection::type_id::" not in d:
+            continue
+        n7 += 1
+        bad = sorted(set((c.callee or c.full or c.name) for c in b.calls if STATEFUL.search(c.callee or c.full or "")))
+        badl = sorted(set(l["ty"] for l in b.locals if STATEFUL.search(l["ty"])))
+        rep.check(not bad and not badl, "C20-R7", d, "no-shared-state", "the type-id computation touches shared mutable state (%s): the id of a layout would depend on what was computed earlier in the process, not only on the layout" % (bad + badl)[:4], line=b.span, detail={"calls": bad, "locals": badl})
+    rep.floor("C20-R7", "functions of introspection::type_id", n7, 6)
